@@ -150,6 +150,90 @@ def layout(rng, noise, poison=(), spelling=None, raw=None):
     return lines
 
 
+# foreign, inert attributes that may surround the deserr ones (same text in poisoned item and twin)
+FOREIGN = {
+    "tool": "#[rustfmt::skip]",                       # tool attribute: a path with two segments
+    "allow": "#[allow(dead_code)]",
+    "doc": '#[doc = "x"]',
+    "doccomment": "/// documented",
+    "cfg_attr": "#[cfg_attr(all(), allow(unused))]",
+    "serde": '#[serde(rename = "x")]',                # helper attribute declared by the Deserr derive itself
+}
+FOREIGN_KINDS = sorted(FOREIGN)
+
+
+def foreign_line(kind):
+    return Line(None, FOREIGN[kind], FOREIGN[kind])
+
+
+def sprinkle(rng, lines, num=1, den=4):
+    if rng.chance(num, den):
+        lines.insert(rng.below(len(lines) + 1), foreign_line(rng.pick(FOREIGN_KINDS)))
+        if rng.chance(1, 4):
+            lines.insert(rng.below(len(lines) + 1), foreign_line(rng.pick(FOREIGN_KINDS)))
+
+
+def place(rng, poison, spelling, raw, ctx_atoms, cpl, extra):
+    """Deterministic placement: the poison ('one'/'single': one attribute, 'two': two attributes, 'raw': raw line),
+    the context atoms before/after it in the same attribute or in a separate one (cpl), and the atoms the base needs
+    (extra) anywhere.  Returns (lines, poison lines)."""
+    if spelling == "raw":
+        pl = [raw]
+    elif spelling == "two":
+        pl = [Line([poison[0]]), Line([poison[1]])]
+    else:
+        pl = [Line(list(poison))]
+    lines = list(pl)
+    if ctx_atoms:
+        before = cpl.startswith("before")
+        if cpl.endswith("same") and spelling != "raw":
+            tgt = pl[0] if before else pl[-1]
+            if before:
+                tgt.atoms[0:0] = list(ctx_atoms)
+            else:
+                tgt.atoms.extend(ctx_atoms)
+        else:
+            ln = Line(list(ctx_atoms))
+            if before:
+                lines.insert(0, ln)
+            else:
+                lines.append(ln)
+    for a in extra:
+        cands = [ln for ln in lines if ln.atoms is not None]
+        if not cands or rng.chance(1, 3):
+            lines.insert(rng.below(len(lines) + 1), Line([a]))
+        else:
+            ln = rng.pick(cands)
+            ln.atoms.insert(rng.below(len(ln.atoms) + 1), a)
+    for ln in lines:
+        if ln.atoms is not None and rng.chance(1, 10):
+            ln.trailing_comma = True
+    return lines, pl
+
+
+def poison_lines(lines, poison, raw):
+    out = []
+    for ln in lines:
+        if ln is raw or (ln.atoms is not None and any(a is b for a in ln.atoms for b in poison)):
+            out.append(ln)
+    return out
+
+
+def add_foreign(lines, pl, fkind, fpos):
+    """fpos: 'none' | 'before' (all deserr attributes) | 'between' (immediately before the last attribute that
+    carries poison; = before when that is the first one) | 'after'"""
+    if fpos == "none" or fkind == "none":
+        return
+    ln = foreign_line(fkind)
+    if fpos == "before":
+        lines.insert(0, ln)
+    elif fpos == "after":
+        lines.append(ln)
+    else:
+        idx = max(i for i, x in enumerate(lines) if any(x is p for p in pl)) if pl else 0
+        lines.insert(idx, ln)
+
+
 # ------------------------------------------------------------------------------------------------
 # names and types
 
@@ -185,6 +269,8 @@ ERR_OF_MODE = {"generic": "__Deserr_E", "json": "deserr::errors::JsonError", "ow
 
 
 def type_by_name(name):
+    if name == "h::W":
+        return ("h::W", "h::dflt_w()", "h::W(3)")
     for t in TYPES:
         if t[0] == name:
             return t
@@ -411,8 +497,9 @@ def container_noise(rng, item, exclude=()):
     return atoms
 
 
-def gen_base(rng, kind, mode=None, exclude=(), no_e_noise=False, quiet_fields=False, copy_only=False):
-    """kind: 'struct' | 'tagged' | 'unit'.  Container noise is left in item.noise (laid out by the cell)."""
+def gen_base(rng, kind, mode=None, exclude=(), no_e_noise=False, quiet_fields=False, copy_only=False, plain=False):
+    """kind: 'struct' | 'tagged' | 'unit'.  Container noise is left in item.noise (laid out by the cell).
+    plain: only the attributes the base needs (tag of a tagged enum, error type of a non-generic mode)."""
     if mode is None:
         mode = rng.pick(["generic", "generic", "generic", "json", "own"])
     item = Item(pascal(rng, set()), kind, mode)
@@ -439,5 +526,19 @@ def gen_base(rng, kind, mode=None, exclude=(), no_e_noise=False, quiet_fields=Fa
             if rng.chance(1, 3):
                 v.lines = layout(rng, variant_noise(rng, exclude=("rename_all",) if rng.chance(1, 2) else ()))
             item.variants.append(v)
-    item.noise = container_noise(rng, item, exclude)
+    if plain:
+        item.noise = []
+        if kind == "tagged" and "tag" not in exclude:
+            item.noise.append(N('tag = "%s"' % rng.pick(["type", "kind", "t", "tag"])))
+        if mode != "generic" and "error" not in exclude:
+            item.noise.append(N("error = " + item.E))
+    else:
+        item.noise = container_noise(rng, item, exclude)
+    # foreign, inert attributes on the nodes that do not carry the poison (the poisoned node gets its own, rotated)
+    for f in item.fields:
+        sprinkle(rng, f.lines)
+    for v in item.variants:
+        sprinkle(rng, v.lines)
+        for f in v.fields or []:
+            sprinkle(rng, f.lines)
     return item
